@@ -255,11 +255,62 @@ func c12AddRuleChain(r *rand.Rand, s *gen.Scenario) {
 	}
 }
 
+// c12AddRegexAndJoin adds (1) two facts, two rules and two checks that use two DIFFERENT regular
+// expressions - permuting rules or checks changes the order in which the patterns are interned,
+// so the same symbol index means another pattern in the variant evaluated next in this process;
+// (2) a chain of 3-5 parent/2 facts with the self-join grandparent($g,$c) <- parent($g,$p),
+// parent($p,$c) and a three-atom join - permuting the facts changes which fact sits at which
+// position of the join enumerator. Probes expose everything derived.
+func c12AddRegexAndJoin(r *rand.Rand, s *gen.Scenario) {
+	pats := []string{"^a", "^z", "a$", "^[a-m]", "e", "^.l"}
+	i := r.Intn(len(pats))
+	j := (i + 1 + r.Intn(len(pats)-1)) % len(pats)
+	u, h := ast.Var("u"), ast.Var("h")
+	m := func(v ast.Term, pat string) ast.Expr {
+		return ast.Expr{ast.OV(v), ast.OV(ast.Str(pat)), ast.OB(int(ast.BRegex))}
+	}
+	facts := []ast.Pred{ast.P("re_user", ast.Str("alice")), ast.P("re_user", ast.Str("zed")), ast.P("re_host", ast.Str("zeta")), ast.P("re_host", ast.Str("alpha"))}
+	rules := []ast.Rule{
+		{Head: ast.P("re_hit_user", u), Body: []ast.Pred{ast.P("re_user", u)}, Exprs: []ast.Expr{m(u, pats[i])}},
+		{Head: ast.P("re_hit_host", h), Body: []ast.Pred{ast.P("re_host", h)}, Exprs: []ast.Expr{m(h, pats[j])}},
+	}
+	checks := []ast.Check{
+		{Queries: []ast.Rule{{Head: ast.P("query"), Body: []ast.Pred{ast.P("re_user", u)}, Exprs: []ast.Expr{m(u, pats[i])}}}},
+		{Queries: []ast.Rule{{Head: ast.P("query"), Body: []ast.Pred{ast.P("re_host", h)}, Exprs: []ast.Expr{m(h, pats[j])}}}},
+	}
+	names := []string{"ann", "bob", "cy", "dee", "eve", "flo"}
+	n := 3 + r.Intn(3)
+	for k := 0; k < n; k++ {
+		facts = append(facts, ast.P("parent", ast.Str(names[k]), ast.Str(names[k+1])))
+	}
+	g, p, ch, x := ast.Var("g"), ast.Var("p"), ast.Var("c"), ast.Var("x")
+	rules = append(rules,
+		ast.Rule{Head: ast.P("grandparent", g, ch), Body: []ast.Pred{ast.P("parent", g, p), ast.P("parent", p, ch)}},
+		ast.Rule{Head: ast.P("great", g, x), Body: []ast.Pred{ast.P("parent", g, p), ast.P("parent", p, ch), ast.P("parent", ch, x)}})
+	if r.Intn(2) == 0 {
+		s.Blocks[0].Facts = append(s.Blocks[0].Facts, facts...)
+		s.Blocks[0].Rules = append(s.Blocks[0].Rules, rules...)
+	} else {
+		s.Auth.Facts = append(s.Auth.Facts, facts...)
+		s.Auth.Rules = append(s.Auth.Rules, rules...)
+	}
+	s.Auth.Checks = append(s.Auth.Checks, checks...)
+	v0, v1 := ast.Var("v0"), ast.Var("v1")
+	s.Probes = append(s.Probes,
+		ast.Rule{Head: ast.P("probe_re_user", v0), Body: []ast.Pred{ast.P("re_hit_user", v0)}},
+		ast.Rule{Head: ast.P("probe_re_host", v0), Body: []ast.Pred{ast.P("re_hit_host", v0)}},
+		ast.Rule{Head: ast.P("probe_grandparent", v0, v1), Body: []ast.Pred{ast.P("grandparent", v0, v1)}},
+		ast.Rule{Head: ast.P("probe_great", v0, v1), Body: []ast.Pred{ast.P("great", v0, v1)}})
+}
+
 func c12Run(c *core.C) {
 	r := c.R
 	for rep := 0; rep < 3; rep++ {
 		s := gen.NewScenario(r, 3, scenOpts)
 		c12AddRuleChain(r, s)
+		if rep != 1 {
+			c12AddRegexAndJoin(r, s)
+		}
 		d := ref.Authorize(s.Blocks, s.Auth)
 		if d.Class == "" || d.Signature == "run-error" || d.Signature == "block-run-error" {
 			c.Count("skipped_not_error_free", 1)
@@ -569,6 +620,26 @@ func c18Run(c *core.C) {
 			f.Terms = append(f.Terms, gen.SetOf(r, gen.Pick(r, gen.ScalarKinds), 1+r.Intn(3), true))
 			content.Facts = append(append([]ast.Pred{}, content.Facts...), f)
 		}
+		if r.Intn(2) == 0 {
+			// a set written with a repeated member (the builders accept it): the snapshot must give
+			// back an authorizer that counts its members the way the original does
+			n := int64(r.Intn(3))
+			ds := ast.SetOf(ast.Int(n), ast.Int(n), ast.Int(n+1))
+			sv := ast.Var("s")
+			content.Facts = append(append([]ast.Pred{}, content.Facts...), ast.P("dup_set", ds))
+			lenIs := func(k int64) ast.Expr {
+				return ast.Expr{ast.OV(sv), ast.OU(int(ast.ULength)), ast.OV(ast.Int(k)), ast.OB(int(ast.BEqual))}
+			}
+			q := func(k int64) ast.Rule {
+				return ast.Rule{Head: ast.P("query"), Body: []ast.Pred{ast.P("dup_set", sv)}, Exprs: []ast.Expr{lenIs(k)}}
+			}
+			if r.Intn(2) == 0 {
+				content.Checks = append(append([]ast.Check{}, content.Checks...), ast.Check{Queries: []ast.Rule{q(3)}})
+			} else {
+				content.Policies = append([]ast.Policy{{Allow: false, Queries: []ast.Rule{q(2)}}}, content.Policies...)
+			}
+			c.Count("contents_with_repeated_set_member", 1)
+		}
 		desc := map[string]any{"content": gen.AuthTexts(content), "token": gen.Texts(t2.Blocks), "snapshot_taken_for": gen.Texts(t1.Blocks)}
 		var snap []byte
 		var serr error
@@ -589,6 +660,12 @@ func c18Run(c *core.C) {
 			}
 			if b, err := a1.SerializePolicies(); err == nil {
 				c.Violate("snapshot-after-evaluation/"+[]string{"authorize", "query"}[mode], fmt.Sprintf("SerializePolicies succeeded (%d bytes) after the authorizer was evaluated", len(b)), desc)
+			}
+			// ... and loading a snapshot into the evaluated authorizer does not make it saveable again
+			if serr == nil && a1.LoadPolicies(snap) == nil {
+				if b, err := a1.SerializePolicies(); err == nil {
+					c.Violate("snapshot-after-evaluation/"+[]string{"authorize", "query"}[mode]+"-then-load", fmt.Sprintf("SerializePolicies succeeded (%d bytes, first snapshot %d bytes) on an evaluated authorizer after LoadPolicies", len(b), len(snap)), desc)
+				}
 			}
 			c.Count("refusal_checks", 1)
 		})
@@ -760,8 +837,9 @@ func init() {
 		},
 	})
 	core.Register(&core.Prop{
-		ID:    "C18",
-		Level: "exploration",
+		ID:        "C18",
+		MinCounts: map[string]int{"contents_with_repeated_set_member": 150, "refusal_checks": 300},
+		Level:     "exploration",
 		Rule: "3 of 4 cases: 3 round trips each - authorizer content (every term kind, default and fresh symbols, 0-2 checks, 0-3 ordered policies of both kinds) is added to an authorizer for token T1, saved with SerializePolicies, loaded with LoadPolicies into a fresh authorizer for an independently drawn token T2 and compared (class + probe answers) with a fresh authorizer for T2 fed the content directly; SerializePolicies after Authorize / Query must fail. 1 of 4 cases: malformed input - 40 bit flips and 40 truncations of a valid snapshot, random bytes, 40 AuthorizerPolicies messages written by R3 with the hostile values of C10 (symbol indexes up to 2^64-1, sets of byte arrays, unknown policy kinds, policies without kind, versions 0/2/4) and 20 structural hostilities; LoadPolicies and the evaluation that follows must not panic. " +
 			"Non-trivial = distinct (content, token) round trips.",
 		Assumptions: []string{"the loading authorizer is fresh (nothing added before LoadPolicies)"},
